@@ -2,6 +2,9 @@
 # oracle and comparison are those of tools/props/c03.py (same structures, same wire format, same
 # harness); only the shape of the operation chains differs: they start with an integration and the
 # final action is mostly analytical_integral(a, b) together with (a, c), (c, b), (b, a).
+import math
+from fractions import Fraction as Fr
+from tools.lib import Case, f2hex, cps
 from tools.props import c03 as base
 from tools.props.c03 import judge, compare, nontrivial, describe, TRUSTED, ASSUMPTIONS   # noqa: F401
 
@@ -11,12 +14,106 @@ RULE = ('polynomial structures reachable from the two parsers (classes of C03), 
         'indefinite_integral_multivariate by a present / absent / fresh multi-letter / empty name; never a term of exponent -1 in the '
         'integration variable), then any of the four derive/integrate entry points (derive after integrate in particular) x final action: '
         'analytical_integral over (a,b), (a,c), (c,b), (b,a) with bounds inside the domain, or evaluation at points / bindings; '
+        'plus the class tiny_interval (both types, no operation before analytical_integral): intervals of width 1e-22..1e-15 '
+        '(i) at_zero: [0,w], [-w,0], [-w/2,w/2] for non-negative integral exponents, (ii) near_point: [c, c + k ulps] (k = 1, 2, 5) and '
+        '[c, c(1+1e-15)] for 0.5 <= |c| <= 50, (iii) tiny_pos: [w, 2w] for polynomials with negative (or fractional) exponents, each with a '
+        'split point inside, just outside or on a bound.  The value is judged against the exact integral within the rounding envelope '
+        'of F(b) - F(a), gamma * (sum|F-terms(a)| + sum|F-terms(b)|).  DECISIVE are (i) and (iii) (>= 60 % of the class): there the terms of F '
+        'at the bounds are as small as the integral itself (or, for negative exponents, of its size), so the envelope is a relative one and a '
+        'returned 0 is rejected; in (ii) the envelope legitimately exceeds the tiny integral (cancellation in F(b) - F(a)) and only '
+        'additivity / antisymmetry within the envelope and the absence of errors are checked; '
         'distinct = distinct case line; non-trivial = at least one term with a variable')
 TRUSTED = [t.replace('c03', 'c04') for t in TRUSTED]
 
 
+def _ai_line(kind, struct_txt, src, a, b, c):
+    return '%s %s %s 0 ai %s %s %s' % (kind, struct_txt, cps(src), f2hex(a), f2hex(b), f2hex(c))
+
+
+def _split(rng, a, b):
+    """a split point inside, just outside, or on a bound of [a, b]"""
+    w = b - a
+    k = rng.random()
+    if k < 0.4:
+        c = a + w * rng.choice([0.5, 0.25, 0.75])
+    elif k < 0.75:
+        c = rng.choice([b + w * 0.5, a - w * 0.25, b + w * 2])
+    else:
+        c = rng.choice([a, b])
+    return c
+
+
+def _near_point(rng, sign_ok):
+    c0 = rng.uniform(0.5, 50.0) * (rng.choice([1, -1]) if sign_ok else 1)
+    k = rng.choice([1, 2, 5, 0])
+    if k == 0:
+        b = c0 * (1 + 1e-15)
+    else:
+        b = c0
+        for _ in range(k):
+            b = math.nextafter(b, math.copysign(math.inf, c0))
+    r = rng.random()
+    if r < 0.4:
+        c = math.nextafter(c0, b)                       # inside (or b itself when k = 1)
+    elif r < 0.75:
+        c = rng.choice([math.nextafter(b, math.copysign(math.inf, c0)), math.nextafter(c0, 0.0)])   # just outside
+    else:
+        c = rng.choice([c0, b])
+    return c0, b, c
+
+
+def tiny_interval_cases(rng, tier):
+    n = 20 if tier == 'quick' else 200
+    # ---- univariate type: (i) at zero 60 %, (ii) near a moderate point 40 %
+    made = 0
+    while made < n:
+        cls, coefs, var, src = base.gen_simple(rng)
+        if cls in ('high', 'empty', 'unicode') or len(coefs) > 5 or not any(coefs):
+            continue
+        if made % 5 < 3:
+            w = 10 ** rng.uniform(-22, -15)
+            a, b = rng.choice([(0.0, w), (-w, 0.0), (-w / 2, w / 2)])
+            c, sub = _split(rng, a, b), 'at_zero'
+        else:
+            a, b, c = _near_point(rng, True)
+            sub = 'near_point'
+        if rng.random() < 0.25:
+            a, b = b, a
+        yield Case(_ai_line('s', base.enc_simple(coefs, var)[2:], src, a, b, c), 'simple/tiny_interval:' + sub, None)
+        made += 1
+    # ---- multivariate type with at most one variable: (i) 40 %, (iii) tiny positive bounds 25 %, (ii) 35 %
+    made = 0
+    while made < n:
+        want = ('at_zero', 'tiny_pos', 'near_point', 'at_zero', 'near_point', 'at_zero', 'tiny_pos', 'near_point')[made % 8]
+        cls, terms, vars_, src = base.gen_inter(rng)
+        exps = [Fr(e) for _, vs in terms for _, e in vs]
+        if len(vars_) > 1 or not terms or any(e == -1 or abs(e) > 4 for e in exps) or not any(c for c, _ in terms):
+            continue
+        nonneg_int = all(e.denominator == 1 and e >= 0 for e in exps)
+        if want == 'at_zero':
+            if not nonneg_int:
+                continue
+            w = 10 ** rng.uniform(-22, -15)
+            a, b = rng.choice([(0.0, w), (-w, 0.0), (-w / 2, w / 2)])
+            c = _split(rng, a, b)
+        elif want == 'tiny_pos':
+            if nonneg_int:
+                continue
+            w = 10 ** rng.uniform(-22, -15)
+            a, b = w, 2 * w
+            c = rng.choice([1.5 * w, 1.25 * w, 2.5 * w, 0.75 * w, a, b])
+        else:
+            a, b, c = _near_point(rng, all(e.denominator == 1 for e in exps))
+        if rng.random() < 0.25:
+            a, b = b, a
+        line = _ai_line('i', base.enc_inter(terms, vars_)[2:], src, a, b, c)
+        yield Case(' '.join(line.split()), 'inter/tiny_interval:' + want, None)
+        made += 1
+
+
 def gen(rng, tier):
-    return base.gen_cases(rng, tier, 'integ')
+    yield from tiny_interval_cases(rng, tier)
+    yield from base.gen_cases(rng, tier, 'integ')
 
 
 # ---- extraction cross-check: the same cases evaluated inside Coq by vm_compute (the hook of c03.py: same driver,
